@@ -71,6 +71,12 @@ import ebpfcat.ethercat as ecmod
 import ebpfcat.lock as lock_mod
 from ebpfcat.ethercat import EtherCat, Terminal
 
+# module-level and class-level data of ebpfcat.lock belongs to the (simulated)
+# process: import-time value before every execution, a private copy per
+# simulated process (mc/simos.py, LibraryState).  Registered here, before
+# anything has used the module
+simos.own_library_state(lock_mod)
+
 PROP = "C15"
 LEVEL = "model_checking"
 RULE = ("in-process: multisets of 2-3 task programs (1-2 exchanges each from "
@@ -192,6 +198,7 @@ class lock_env:
 
     def __enter__(self):
         lock_env.current = self
+        simos.reset_library_state()     # before the execution, never inside
         if self.parallel:
             self.seams = simos.Seams()
             self.seams.set(lock_mod, "os", simos.OsFacade())
@@ -274,14 +281,22 @@ def judge_events(events):
 
 
 def judge_counters(events):
-    counters = [coe.mbx_parse(e[1]).counter for e in events if e[0] == "in"]
-    for i in range(1, len(counters)):
-        want = counters[i - 1] % 7 + 1
-        if counters[i] != want:
-            what = "counter repeated" if counters[i] == counters[i - 1] \
-                else "counter 0 after the first mail" if counters[i] == 0 \
+    """('epoch',) marks the end of a session: every participant has left and
+    the last one has removed the lock file.  The next mail is a first mail
+    again (the new lock file starts at 0)"""
+    seen, prev = [], None
+    for e in events:
+        if e[0] == "epoch":
+            seen, prev = seen + ["|"], None
+        if e[0] != "in":
+            continue
+        c = coe.mbx_parse(e[1]).counter
+        if prev is not None and c != prev % 7 + 1:
+            what = "counter repeated" if c == prev \
+                else "counter 0 after the first mail" if c == 0 \
                 else "counter is not the successor"
-            return (what, counters[:i] + [want], counters[:i + 1])
+            return (what, seen + [prev % 7 + 1], seen + [c])
+        seen, prev = seen + [c], c
     return None
 
 
@@ -676,6 +691,20 @@ def selftest_oracle():
         "counter is not the successor"
     assert judge_events([rq(0, 7), rs(0), f, rq(1, 0), rs(1), f])[0] == \
         "counter 0 after the first mail"
+    # a new session (the lock file was removed by the last one) starts anew
+    ep = ("epoch",)
+    assert judge_events([rq(0, 7), rs(0), f, ep, rq(1, 0), rs(1), f,
+                         rq(0, 1), rs(0), f]) is None
+    assert judge_events([rq(0, 2), rs(0), f, ep, rq(1, 5), rs(1), f]) is None
+    assert judge_events([rq(0, 0), rs(0), f, ep, rq(1, 0), rs(1), f,
+                         rq(0, 2), rs(0), f])[0] == \
+        "counter is not the successor"
+    assert judge_events([rq(0, 0), rs(0), f, ep, rq(1, 1), rs(1), f,
+                         rq(0, 0), rs(0), f])[0] == \
+        "counter 0 after the first mail"
+    assert judge_events([rq(0, 0), rs(0), f, ep, rq(1, 0), rq(0, 1), rs(1),
+                         f])[0] == \
+        "request written inside another user's exchange"
     assert judge_events([rq(0, 1), rq(1, 2), rs(0), f, rs(1), f])[0] == \
         "request written inside another user's exchange"
     assert judge_events([rq(0, 1), rs(0), rq(1, 2), f, rs(1), f])[0] == \
